@@ -54,13 +54,13 @@ RuleNames == {
     "C13.AcceptReturnsMatched", "C13.AcceptCallOrder", "C13.PairOnce", "C13.ReleaseOnAbandon",
     "C18.NagleHold", "C18.NoHoldWhenOff", "C18.NagleDrain",
     "C11.EmitWellFormed", "C11.EmitConnId",
-    "C14.NeverAboveLink", "C14.OrdinaryWithinProven", "C14.OneProbe",
+    "C14.NeverAboveLink", "C14.OrdinaryWithinProven", "C14.OneProbe", "C14.Converges", "C14.LogProbes",
     "C17.FinSeq", "C17.FinAfterData", "C17.NothingAfterFin", "C17.PeerFinInOrder", "C17.FinAnswered",
     "C17.ResetAborts", "C17.ResetNoReply", "C17.SynAckForm", "C17.SynAckRepeats",
     "C19.TxBounded", "C19.WriteNotStuck" }
 
 EmptyFn == << >>
-NoMeta == [class |-> "", lat |-> 0, backlog |-> 32]
+NoMeta == [class |-> "", lat |-> 0, backlog |-> 32, path |-> 0]
 NoPairs == [connected |-> {}, accepted |-> {}, acceptedN |-> 0]
 
 Init ==
@@ -97,7 +97,8 @@ Reset(r) ==
     /\ run' = run + 1 /\ now' = 0
     /\ meta' = [class |-> IF Has(r.cfg, "info") /\ Has(r.cfg.info, "class") THEN r.cfg.info.class ELSE "",
                 lat |-> r.cfg.latency_us,
-                backlog |-> IF Has(r.cfg, "info") /\ Has(r.cfg.info, "backlog") THEN r.cfg.info.backlog ELSE 32]
+                backlog |-> IF Has(r.cfg, "info") /\ Has(r.cfg.info, "backlog") THEN r.cfg.info.backlog ELSE 32,
+                path |-> IF Has(r.cfg, "info") /\ Has(r.cfg.info, "path_payload") THEN r.cfg.info.path_payload ELSE 0]
     /\ eps' = EmptyFn /\ sendIdx' = EmptyFn /\ app' = EmptyFn /\ infl' = EmptyFn
     /\ sk' = EmptyFn /\ pairs' = NoPairs
     /\ last' = [tx |-> [k |-> <<>>], rx |-> EmptyFn]
@@ -134,6 +135,8 @@ TickRules(k, t) ==
                  /\ e.tAck < 0 /\ p.tAck < 0
         fair == meta.class \in {"fair-lossy", "loss-free"}
     IN  { <<k, "C07.ImmediateAck", e.ackImm > 0 /\ alive /\ ~e.txPending, FALSE, "">>,
+          \* "... once the unacknowledged bytes reach twice its own segment size" (its segment size at this instant)
+          <<k, "C07.ImmediateAck", e.unackedB > 0 /\ alive /\ ~e.txPending, e.unackedB < 2 * OwnMss(e), "2mss">>,
           <<k, "C07.DelayedAck", e.ackDue >= 0 /\ alive /\ ~e.txPending, R_C07_DelayedAck(e, t), "">>,
           <<k, "C06.FastRetx", e.frDue > 0 /\ alive /\ ~e.txPending, FALSE, "">>,
           <<k, "C06.RtoFires", (SentUnacked(e) \/ FinUnacked(e)) /\ alive /\ e.tRtx >= 0 /\ ~e.txPending,
@@ -243,6 +246,10 @@ TxEndpoint(r, h, k) ==
                                         plen |-> r.plen, line |-> l]]
 
 Tx(r) ==
+    IF r.res # "ok"
+    THEN \* the transport refused the datagram (EMSGSIZE): nothing was emitted
+         UNCHANGED <<run, now, meta, eps, sendIdx, app, infl, sk, pairs, last>> /\ NoJudge
+    ELSE
     LET h == ParseMessage(r.hdr, r.len)
         skey == IF h.ok THEN <<r.ft, h.cid>> ELSE <<>>
         raw == Has(r, "raw")
@@ -299,7 +306,9 @@ Xmit(r) ==
                     \* C14 "ordinary segments never exceed the largest payload size already proven deliverable (or the protocol minimum)"
                     <<"C14.OrdinaryWithinProven", first /\ ordinary, r.len <= OwnMss(e)>>,
                     \* C14 "at most one oversized probe is outstanding and it is the newest segment"
-                    <<"C14.OneProbe", first, e.probeOut < 0 \/ e.probeOut = r.seq>> }
+                    <<"C14.OneProbe", first, e.probeOut < 0 \/ e.probeOut = r.seq>>,
+                    \* C14 "settles, after a logarithmic number of probes": a binary search over at most 2^14 sizes
+                    <<"C14.LogProbes", first /\ ~ordinary, e.probes + 1 <= 16>> }
                 e1 == [e EXCEPT
                         !.lossSeen = @ \/ retx \/ r.recovering \/ isRto,
                         !.rtoMode = IF isRto /\ retx THEN TRUE ELSE @,
@@ -308,6 +317,8 @@ Xmit(r) ==
                         !.recPoint = IF isRto /\ retx THEN Nx(e.nxt, SeqMod - 1) ELSE @,
                         !.frDue = IF retx \/ r.recovering THEN 0 ELSE @,
                         !.probeOut = IF first /\ ~ordinary THEN r.seq ELSE @,
+                        !.probes = IF first /\ ~ordinary THEN @ + 1 ELSE @,
+                        !.newSegs = IF first THEN @ + 1 ELSE @,
                         \* after a timeout every other outstanding segment is presumed lost (go-back-N)
                         !.segs = IF isRto /\ retx
                                  THEN [s \in DOMAIN @ |->
@@ -513,6 +524,7 @@ Poll(r) ==
                                           /\ e.probeOut < 0 /\ ~e.probeQ /\ ~r.pending /\ r.ring_len > 0,
                                          ~(r.ring_len > r.segmented /\ r.segmented < r.pwnd)>> })
             /\ eps' = [eps EXCEPT ![k] = [e EXCEPT !.state = r.state, !.tRtx = r.t_rtx, !.tAck = r.t_ack,
+                                                   !.codeMss = r.mss, !.codeMaxSs = r.max_ss,
                                                    !.idleArmed = IF ~SentUnacked(e) /\ ~FinUnacked(e) THEN r.t_rtx
                                                                  ELSE IF @ = r.t_rtx THEN @ ELSE -1,
                                                    !.ringCap = r.ring_cap, !.txPending = r.pending]]
@@ -526,7 +538,9 @@ Dying(r) ==
                                   \* known finding: the inactivity abort fires while a retransmission is still
                                   \* scheduled (RTO back-off can exceed the inactivity timeout)
                                   ![k].deathCtx = IF r.result = "remote was inactive for too long"
-                                                     /\ (SentUnacked(eps[k]) \/ FinUnacked(eps[k])) /\ eps[k].tRtx >= now
+                                                     /\ \/ ((SentUnacked(eps[k]) \/ FinUnacked(eps[k])) /\ eps[k].tRtx >= now)
+                                                        \/ (LET pk == eps[k].cfg.peer IN
+                                                             Live(pk) /\ (SentUnacked(eps[pk]) \/ FinUnacked(eps[pk])) /\ eps[pk].tRtx >= now)
                                                   THEN "inactivity-before-rto"
                                                   ELSE IF eps[k].stalled # "" THEN eps[k].stalled ELSE "",
                                   ![k].released = IF @ < 0 THEN now ELSE @]
@@ -539,6 +553,10 @@ EndOf(k, result) ==
           <<"C17.ResetAborts", e.resetAt > 0, result # "ok" \/ e.stateAtReset = "last-ack">>,
           \* C06: the retransmission limit is a legitimate reason to fail only when it was reached
           <<"C08.SlotFreed", result # "cancelled", TRUE>>,
+          \* C14 "On a path that silently discards datagrams above some size the connection ... settles ... on the largest
+          \*      payload size that fits" (judged for senders that transmitted enough segments for the search to finish)
+          <<"C14.Converges", meta.path > 0 /\ e.newSegs >= 300 /\ ~e.splitDelivered,
+                             e.codeMss = Min(meta.path, LinkCeiling(e))>>,
           <<"C03.AbortSurfaces", e.pend # {} /\ result # "ok", TRUE>>,
           <<"C06.CapReason", result = "max number of retransmissions reached",
                              \E s \in DOMAIN e.segs : e.segs[s].cnt >= e.cfg.max_retx + 1>> })
